@@ -692,14 +692,24 @@ func runHarness(cfg CheckConfig) *harnessRun {
 	hr.Seconds = time.Since(start).Seconds()
 	hr.Ran = true
 	hr.Output = string(out)
+	hr.parse(string(out), "")
+	if cfg.Property == "C17" || cfg.Property == "" {
+		hr.runWasm(cfg)
+	}
+	return hr
+}
+
+// parse collects REPLAY-FAIL / REPLAY-OK lines of a harness run; prefix is put in front of the obligation names
+// ("tinywasm:" for the wasm variant, whose obligations carry that prefix).
+func (hr *harnessRun) parse(out string, prefix string) {
 	cur := ""
-	for _, ln := range strings.Split(string(out), "\n") {
+	for _, ln := range strings.Split(out, "\n") {
 		t := strings.TrimSpace(ln)
 		if strings.HasPrefix(t, "=== RUN") {
 			cur = strings.TrimSpace(strings.TrimPrefix(t, "=== RUN"))
 		}
 		if i := strings.Index(t, "REPLAY-FAIL "); i >= 0 {
-			rest := t[i+len("REPLAY-FAIL "):]
+			rest := prefix + t[i+len("REPLAY-FAIL "):]
 			name := rest
 			if j := strings.Index(rest, " "); j >= 0 {
 				name = rest[:j]
@@ -710,10 +720,43 @@ func runHarness(cfg CheckConfig) *harnessRun {
 			hr.OK = append(hr.OK, t[i+len("REPLAY-OK "):])
 		}
 	}
-	if len(hr.Failures) == 0 && strings.Contains(string(out), "panic:") {
-		hr.Failures = append(hr.Failures, harnessFailure{Name: "panic", Message: "the harness run panicked: " + firstLineWith(string(out), "panic:"), Test: cur})
+	if len(hr.Failures) == 0 && strings.Contains(out, "panic:") {
+		hr.Failures = append(hr.Failures, harnessFailure{Name: prefix + "panic", Message: "the harness run panicked: " + firstLineWith(out, "panic:"), Test: cur})
 	}
-	return hr
+}
+
+// runWasm runs the harness of the tinywasm variant (file-list mode: the repository's external test packages do not
+// build with that tag).
+func (hr *harnessRun) runWasm(cfg CheckConfig) {
+	ovPath := filepath.Join(os.TempDir(), fmt.Sprintf("gvc-overlay-wasm-%d.json", os.Getpid()))
+	ov := map[string]map[string]string{"Replace": {
+		filepath.Join(cfg.Repo, "zz_wasm_replay_test.go"): filepath.Join(cfg.VerifDir, "replay", "wasm_replay_test.go"),
+	}}
+	data, _ := json.Marshal(ov)
+	if err := os.WriteFile(ovPath, data, 0o644); err != nil {
+		return
+	}
+	defer os.Remove(ovPath)
+	env := append(os.Environ(), "GOFLAGS=-mod=mod", "GOPROXY=off")
+	list := exec.Command("go", "list", "-tags", "tinywasm,verif", "-f", "{{range .GoFiles}}{{.}} {{end}}", ".")
+	list.Dir = cfg.Repo
+	list.Env = env
+	files, err := list.Output()
+	if err != nil {
+		return
+	}
+	args := []string{"test", "-tags", "tinywasm,verif", "-overlay", ovPath, "-vet=off", "-count=1", "-timeout", "300s", "-run", "TestReplay_", "-v"}
+	args = append(args, strings.Fields(string(files))...)
+	args = append(args, "zz_wasm_replay_test.go")
+	cmd := exec.Command("go", args...)
+	cmd.Dir = cfg.Repo
+	cmd.Env = env
+	start := time.Now()
+	out, _ := cmd.CombinedOutput()
+	hr.Seconds += time.Since(start).Seconds()
+	hr.Output += string(out)
+	hr.Cmd += "; tinywasm variant: go test -tags tinywasm,verif (file-list mode) -run TestReplay_ with /verif/replay/wasm_replay_test.go"
+	hr.parse(string(out), "tinywasm:")
 }
 
 // Replay re-runs the run-time contract harness against the current tree and prints what it finds.
